@@ -10,4 +10,6 @@ tmp=$(mktemp -d /tmp/altcheck.XXXXXX)
 trap 'rm -rf "$tmp"' EXIT
 cp -r "$V/check" "$V/harness" "$V/known_findings.json" "$tmp/"
 sed -i "s#=> /repo#=> $tree#" "$tmp/harness/go.mod"
-"$tmp/check" "$@"
+"$tmp/check" "$@"; code=$?
+if [ -n "${ALT_SHOW:-}" ]; then python3 -c "import json,sys; e=json.load(open('$tmp/evidence/$1.json'))['coverage']; print(json.dumps({k:e[k] for k in sys.argv[1].split(',') if k in e}))" "$ALT_SHOW"; fi
+exit $code
